@@ -82,20 +82,31 @@ theorem successBranch_w (w : World) (bp : Nat) (tx : Tx) (snd rcv : Copy) (fee :
     (successBranch w bp tx snd rcv fee st).outcome = .success := by
   simp [successBranch]
 
-/-- The guard that excludes the two aliasing defects of `name.ExecuteNameTx` on the pinned tree:
-`v1setOwner` whose new owner is the sender (while `aergo.name` holds a balance), and a paid
-`v1createName`/`v1updateName` when the recorded owner of the name contract is `aergo.name` itself. -/
-def nameGuard (w : World) (tx : Tx) : Prop :=
-  match tx.gov with
-  | .setOwner a => a ≠ tx.sender ∨ w.bal aName = 0
-  | .nameCreate _ => w.ownerOf nAergoName ≠ some aName ∨ tx.amount = 0
-  | .nameUpdate _ _ => w.ownerOf nAergoName ≠ some aName ∨ tx.amount = 0
-  | _ => True
+/-- paying the name contract through the receiver's own record -/
+theorem payRcv_total {w0 w : World} {snd rcv s r : Copy} {amt bp : Nat} {tx : Tx} {st : Status}
+    (ha : w.accts = w0.accts) (hsend : sendBal snd rcv amt = some (s, r))
+    (hs : snd.cur = w0.acct snd.id) (hr : rcv.cur = w0.acct rcv.id) (hne : snd.id ≠ rcv.id) :
+    (successBranch (w.put r.id r.cur) bp tx s r 0 st).w.total = w0.total := by
+  have hb : ∀ a, w.bal a = w0.bal a := bal_of_accts ha
+  have ht : w.total = w0.total := total_of_accts ha
+  have hsb : snd.cur.bal = w0.bal snd.id := by rw [hs]; rfl
+  have hrb : rcv.cur.bal = w0.bal rcv.id := by rw [hr]; rfl
+  have q := sendBal_spec hsend
+  obtain ⟨q1, q2, q3, q4, q5, q6, q7, q8, q9, q10, q11, q12, q13, q14, q15, q16, q17⟩ := q
+  have hne' : s.id ≠ r.id := by rw [q1, q2]; exact hne
+  rw [(successBranch_w _ _ _ _ _ _ _).1, if_pos hne']
+  have h1 := total_put w r.id r.cur
+  have h2 := put2_total (w.put r.id r.cur) (s.cur.setNonce tx.nonce) r.cur hne'
+  rw [bal_put_same, bal_put_other _ _ _ _ (Ne.symm hne')] at h2
+  have e1 := hb snd.id; have e2 := hb rcv.id
+  rw [q1, q2]
+  rw [q1] at h2; rw [q2] at h1 h2
+  simp at h2
+  omega
 
 theorem payName_total {w0 w : World} {snd rcv s r : Copy} {amt bp : Nat} {w' : World} {tx : Tx} {st : Status}
-    (ha : w.accts = w0.accts) (hp : payName (nameRef w0 snd) snd rcv amt w = some (s, r, w'))
-    (hs : snd.cur = w0.acct snd.id) (hr : rcv.cur = w0.acct rcv.id) (hne : snd.id ≠ rcv.id)
-    (hg : w0.ownerOf nAergoName ≠ some rcv.id ∨ amt = 0) :
+    (ha : w.accts = w0.accts) (hp : payName (nameRef w0 snd rcv) snd rcv amt w = some (s, r, w'))
+    (hs : snd.cur = w0.acct snd.id) (hr : rcv.cur = w0.acct rcv.id) (hne : snd.id ≠ rcv.id) :
     (successBranch w' bp tx s r 0 st).w.total = w0.total := by
   have hb : ∀ a, w.bal a = w0.bal a := bal_of_accts ha
   have ht : w.total = w0.total := total_of_accts ha
@@ -115,34 +126,35 @@ theorem payName_total {w0 w : World} {snd rcv s r : Copy} {amt bp : Nat} {w' : W
       have := hb snd.id; have := hb rcv.id
       simp at h2
       omega
-    · -- somebody else owns it: nameState is a fresh copy of the owner
-      rename_i hso
-      simp only [payName] at hp
+    · rename_i hso
       split at hp
-      · cases hp
-      · rename_i s1 cp' hsend
-        cases hp
-        have q := sendBal_spec hsend
-        obtain ⟨q1, q2, q3, q4, q5, q6, q7, q8, q9, q10, q11, q12, q13, q14, q15, q16, q17⟩ := q
-        simp at q2 q17
-        have q17' := q17 hso
-        rw [(successBranch_w _ _ _ _ _ _ _).1, q1, if_pos hne, q2]
-        have h1 := total_put w o cp'.cur
-        have h2 := put2_total (w.put o cp'.cur) (s.cur.setNonce tx.nonce) rcv.cur hne
-        have hso' : o ≠ snd.id := fun e => hso e.symm
-        rw [bal_put_other _ _ _ _ hso'] at h2
-        have e1 := hb snd.id; have e2 := hb rcv.id; have e3 := hb o
-        have hcp : (w0.acct o).bal = w0.bal o := rfl
-        simp at h2
-        by_cases hor : o = rcv.id
-        · subst hor
-          rw [bal_put_same] at h2
-          have hamt : amt = 0 := by
-            rcases hg with hg | hg
-            · exact absurd ho hg
-            · exact hg
-          omega
-        · rw [bal_put_other _ _ _ _ hor] at h2
+      · -- aergo.name owns itself: nameState is the receiver's own record
+        simp only [payName] at hp
+        split at hp
+        · cases hp
+        · rename_i s1 r1 hsend
+          cases hp
+          exact payRcv_total ha hsend hs hr hne
+      · -- somebody else owns it: nameState is a fresh copy of the owner
+        rename_i hro
+        simp only [payName] at hp
+        split at hp
+        · cases hp
+        · rename_i s1 cp' hsend
+          cases hp
+          have q := sendBal_spec hsend
+          obtain ⟨q1, q2, q3, q4, q5, q6, q7, q8, q9, q10, q11, q12, q13, q14, q15, q16, q17⟩ := q
+          simp at q2 q17
+          have q17' := q17 hso
+          rw [(successBranch_w _ _ _ _ _ _ _).1, q1, if_pos hne, q2]
+          have h1 := total_put w o cp'.cur
+          have h2 := put2_total (w.put o cp'.cur) (s.cur.setNonce tx.nonce) rcv.cur hne
+          have hso' : o ≠ snd.id := fun e => hso e.symm
+          have hro' : o ≠ rcv.id := fun e => hro e.symm
+          rw [bal_put_other _ _ _ _ hso', bal_put_other _ _ _ _ hro'] at h2
+          have e1 := hb snd.id; have e2 := hb rcv.id; have e3 := hb o
+          have hcp : (w0.acct o).bal = w0.bal o := rfl
+          simp at h2
           omega
   · -- no owner: nameState is the receiver
     simp only [payName] at hp
@@ -150,79 +162,76 @@ theorem payName_total {w0 w : World} {snd rcv s r : Copy} {amt bp : Nat} {w' : W
     · cases hp
     · rename_i s1 r1 hsend
       cases hp
-      have q := sendBal_spec hsend
-      obtain ⟨q1, q2, q3, q4, q5, q6, q7, q8, q9, q10, q11, q12, q13, q14, q15, q16, q17⟩ := q
-      have hne' : s.id ≠ r.id := by rw [q1, q2]; exact hne
-      rw [(successBranch_w _ _ _ _ _ _ _).1, if_pos hne']
-      have h1 := total_put w r.id r.cur
-      have h2 := put2_total (w.put r.id r.cur) (s.cur.setNonce tx.nonce) r.cur hne'
-      rw [bal_put_same, bal_put_other _ _ _ _ (Ne.symm hne')] at h2
-      have e1 := hb snd.id; have e2 := hb rcv.id
-      rw [q1, q2]
-      rw [q1] at h2; rw [q2] at h1 h2
-      simp at h2
-      omega
+      exact payRcv_total ha hsend hs hr hne
 
-
-theorem setOwner_total {w : World} {snd rcv r : Copy} {a : Addr} {w' : World} {bp : Nat} {tx : Tx} {st : Status}
-    (h : setOwner w rcv a = some (r, w'))
-    (hs : snd.cur = w.acct snd.id) (hr : rcv.cur = w.acct rcv.id) (hne : snd.id ≠ rcv.id)
-    (hg : a ≠ snd.id ∨ w.bal rcv.id = 0) :
-    (successBranch w' bp tx snd r 0 st).w.total = w.total := by
+theorem setOwner_total {w : World} {snd rcv s r : Copy} {a : Addr} {w' : World} {bp : Nat} {tx : Tx} {st : Status}
+    (h : setOwner w snd rcv a = some (s, r, w'))
+    (hs : snd.cur = w.acct snd.id) (hr : rcv.cur = w.acct rcv.id) (hne : snd.id ≠ rcv.id) :
+    (successBranch w' bp tx s r 0 st).w.total = w.total := by
   have hsb : snd.cur.bal = w.bal snd.id := by rw [hs]; rfl
   have hrb : rcv.cur.bal = w.bal rcv.id := by rw [hr]; rfl
   unfold setOwner at h
   simp only [] at h
+  let w1 : World := { w with names := mset w.names nAergoName (a, aName) }
+  have ha : w1.accts = w.accts := rfl
+  have hb : ∀ x, w1.bal x = w.bal x := bal_of_accts ha
+  have ht : w1.total = w.total := total_of_accts ha
+  have e2 := hb rcv.id; have e3 := hb snd.id
   split at h
-  · cases h
-  · rename_i r1 oc' hsend
-    cases h
-    have q := sendBal_spec hsend
-    obtain ⟨q1, q2, q3, q4, q5, q6, q7, q8, q9, q10, q11, q12, q13, q14, q15, q16, q17⟩ := q
-    simp at q2 q15 q16 q17
-    have hne' : snd.id ≠ r.id := by rw [q1]; exact hne
-    rw [(successBranch_w _ _ _ _ _ _ _).1, if_pos hne', q1, q2]
-    -- the three puts: owner, name (receiver), then sender and receiver again
-    let w1 : World := { w with names := mset w.names nAergoName (a, aName) }
-    have ha : w1.accts = w.accts := rfl
-    have hb : ∀ x, w1.bal x = w.bal x := bal_of_accts ha
-    have ht : w1.total = w.total := total_of_accts ha
-    show ((((w1.put a oc'.cur).put rcv.id r.cur).put snd.id (snd.cur.setNonce tx.nonce)).put rcv.id r.cur).total = w.total
-    have h1 := total_put w1 a oc'.cur
-    have h2 := total_put (w1.put a oc'.cur) rcv.id r.cur
-    have h3 := put2_total ((w1.put a oc'.cur).put rcv.id r.cur) (snd.cur.setNonce tx.nonce) r.cur hne
-    rw [bal_put_same, bal_put_other _ _ _ _ (Ne.symm hne)] at h3
-    have e1 := hb a; have e2 := hb rcv.id; have e3 := hb snd.id
-    have hoc : (w.acct a).bal = w.bal a := rfl
-    simp at h3
-    by_cases har : a = rcv.id
-    · -- the new owner is aergo.name itself: SendBalance is a no-op
-      subst har
-      have hq := q16 rfl
-      have e5 : r.cur.bal = w.bal rcv.id := by rw [hq.1]; exact hrb
-      have e6 : oc'.cur.bal = w.bal rcv.id := by rw [hq.2]; simp; rfl
-      rw [bal_put_same] at h2
-      rw [bal_put_other _ _ _ _ (Ne.symm hne)] at h3
+  · -- the new owner is the sender: its own live record is credited
+    split at h
+    · cases h
+    · rename_i r1 s1 hsend
+      cases h
+      have q := sendBal_spec hsend
+      obtain ⟨q1, q2, q3, q4, q5, q6, q7, q8, q9, q10, q11, q12, q13, q14, q15, q16, q17⟩ := q
+      have hne' : s.id ≠ r.id := by rw [q1, q2]; exact hne
+      rw [(successBranch_w _ _ _ _ _ _ _).1, if_pos hne', q1, q2]
+      show ((((w1.put snd.id s.cur).put rcv.id r.cur).put snd.id (s.cur.setNonce tx.nonce)).put rcv.id r.cur).total = w.total
+      have h1 := put2_total w1 s.cur r.cur hne
+      have h3 := put2_total ((w1.put snd.id s.cur).put rcv.id r.cur) (s.cur.setNonce tx.nonce) r.cur hne
+      rw [bal_put_same, bal_put_other _ _ _ _ (Ne.symm hne), bal_put_same] at h3
+      simp at h3
       omega
-    · have har' : rcv.id ≠ a := fun e => har e.symm
-      have := q17 har'
-      rw [bal_put_other _ _ _ _ har] at h2
-      by_cases has : a = snd.id
-      · subst has
-        have hz : w.bal rcv.id = 0 := by
-          rcases hg with hg | hg
-          · exact absurd rfl hg
-          · exact hg
-        rw [bal_put_same] at h3
+  · split at h
+    · -- the new owner is aergo.name itself
+      cases h
+      rw [(successBranch_w _ _ _ _ _ _ _).1, if_pos hne]
+      show ((((w1.put rcv.id rcv.cur).put rcv.id rcv.cur).put snd.id (snd.cur.setNonce tx.nonce)).put rcv.id rcv.cur).total = w.total
+      have h1 := total_put w1 rcv.id rcv.cur
+      have h2 := total_put (w1.put rcv.id rcv.cur) rcv.id rcv.cur
+      have h3 := put2_total ((w1.put rcv.id rcv.cur).put rcv.id rcv.cur) (snd.cur.setNonce tx.nonce) rcv.cur hne
+      rw [bal_put_same] at h2
+      rw [bal_put_same, bal_put_other _ _ _ _ (Ne.symm hne), bal_put_other _ _ _ _ (Ne.symm hne)] at h3
+      simp at h3
+      omega
+    · rename_i has har
+      split at h
+      · cases h
+      · rename_i r1 oc' hsend
+        cases h
+        have q := sendBal_spec hsend
+        obtain ⟨q1, q2, q3, q4, q5, q6, q7, q8, q9, q10, q11, q12, q13, q14, q15, q16, q17⟩ := q
+        simp at q2 q15 q16 q17
+        have hne' : snd.id ≠ r.id := by rw [q1]; exact hne
+        rw [(successBranch_w _ _ _ _ _ _ _).1, if_pos hne', q1, q2]
+        show ((((w1.put a oc'.cur).put rcv.id r.cur).put snd.id (snd.cur.setNonce tx.nonce)).put rcv.id r.cur).total = w.total
+        have h1 := total_put w1 a oc'.cur
+        have h2 := total_put (w1.put a oc'.cur) rcv.id r.cur
+        have h3 := put2_total ((w1.put a oc'.cur).put rcv.id r.cur) (snd.cur.setNonce tx.nonce) r.cur hne
+        rw [bal_put_same, bal_put_other _ _ _ _ (Ne.symm hne)] at h3
+        have e1 := hb a
+        have hoc : (w.acct a).bal = w.bal a := rfl
+        have har' : rcv.id ≠ a := fun e => har e.symm
+        have := q17 har'
+        rw [bal_put_other _ _ _ _ har] at h2
+        rw [bal_put_other _ _ _ _ has] at h3
+        simp at h3
         omega
-      · rw [bal_put_other _ _ _ _ has] at h3
-        omega
-
 
 theorem execName_total {c : Ctx} {w : World} {tx : Tx} {snd rcv : Copy} {g : GovOut} {bp : Nat} {st : Status}
     (h : execName c w tx snd rcv = g) (he : g.err = none)
-    (hs : snd.cur = w.acct snd.id) (hr : rcv.cur = w.acct rcv.id) (hne : snd.id ≠ rcv.id)
-    (hsid : snd.id = tx.sender) (hrid : rcv.id = aName) (hg : nameGuard w tx) :
+    (hs : snd.cur = w.acct snd.id) (hr : rcv.cur = w.acct rcv.id) (hne : snd.id ≠ rcv.id) :
     (successBranch g.w bp tx g.snd g.rcv 0 st).w.total = w.total := by
   unfold execName at h
   simp only [] at h
@@ -238,9 +247,7 @@ theorem execName_total {c : Ctx} {w : World} {tx : Tx} {snd rcv : Copy} {g : Gov
         · rename_i s r w' hp
           subst h
           show (successBranch w' bp tx s r 0 st).w.total = w.total
-          refine payName_total (w0 := w) (w := { w with names := mset w.names n (snd.id, snd.id) }) rfl hp hs hr hne ?_
-          simp [nameGuard, hgov] at hg
-          rw [hrid]; exact hg
+          exact payName_total (w0 := w) (w := { w with names := mset w.names n (snd.id, snd.id) }) rfl hp hs hr hne
       · -- v1updateName
         rename_i n to hgov
         split at h
@@ -250,19 +257,15 @@ theorem execName_total {c : Ctx} {w : World} {tx : Tx} {snd rcv : Copy} {g : Gov
           · rename_i s r w' hp
             subst h
             show (successBranch w' bp tx s r 0 st).w.total = w.total
-            refine payName_total (w0 := w) (w := { w with names := mset w.names n ((mget w.creator to).getD to, to) }) rfl hp hs hr hne ?_
-            simp [nameGuard, hgov] at hg
-            rw [hrid]; exact hg
+            exact payName_total (w0 := w) (w := { w with names := mset w.names n ((mget w.creator to).getD to, to) }) rfl hp hs hr hne
       · -- v1setOwner
         rename_i a hgov
         split at h
         · subst h; simp at he
-        · rename_i r w' hso
+        · rename_i s r w' hso
           subst h
-          show (successBranch w' bp tx snd r 0 st).w.total = w.total
-          refine setOwner_total hso hs hr hne ?_
-          simp [nameGuard, hgov] at hg
-          rw [hsid, hrid]; exact hg
+          show (successBranch w' bp tx s r 0 st).w.total = w.total
+          exact setOwner_total hso hs hr hne
       · subst h; simp at he
 
 end Aergo.Ledger
